@@ -94,7 +94,11 @@ def run(sel, tier, props_override=None):
                 verdicts[prop] = {0: 'MISSED', 1: 'caught', 2: 'inconclusive'}.get(p.returncode, 'rc=%s' % p.returncode)
                 print('%-28s %-4s %-12s %5.0fs %s' % (ident, prop, verdicts[prop], time.time() - t0,
                                                       what[0][:170] if what else ''), flush=True)
-            meta.setdefault('check_results', {})[tier] = verdicts
+            if props_override:
+                meta.setdefault('check_results', {}).setdefault(tier, {}).update(verdicts)
+                verdicts = meta['check_results'][tier]
+            else:
+                meta.setdefault('check_results', {})[tier] = verdicts
             meta['ran'] = [r for r in meta['ran'] if not r.startswith('checks(%s)' % tier)] + \
                           ['checks(%s) against a scratch copy with the patch applied (VERIF_REPO): %s' % (tier, verdicts)]
             with open(mp, 'w') as f:
